@@ -204,9 +204,10 @@ func C10CheckTrace(evs []impl.Event) string {
 			}
 		}
 	}
-	done := run.Track("CreateInMemory", "event stream "+evString(evs[:min(len(evs), 40)]))
-	root, err := store.CreateInMemory(sp)
-	done()
+	root, err := func() (*store.InMemory, error) {
+		defer run.Track("CreateInMemory", "event stream "+evString(evs[:min(len(evs), 40)]))()
+		return store.CreateInMemory(sp)
+	}()
 	if err != nil {
 		return "CreateInMemory returned an error for a conforming stream: " + err.Error()
 	}
